@@ -537,3 +537,202 @@ Example C01_bridge_example_typed : RingEvalBridgeTyped.tape_typed bx_nodes bx_ta
 Proof. vm_compute. reflexivity. Qed.
 
 Print Assumptions C01_ring_reading_agrees_with_eval_typed.
+
+(* ====================================================================================== *)
+(* C01 deep, context level: the wrapper compile_to_mpc / compile_to_mpc_context around the    *)
+(* per-graph step (Model/MpcCompileCtx.v: share_all_inputs, share_input, share_node,           *)
+(* generate_prf_key_triple, the Call node, reveal_output), tied LITERALLY to the code on every  *)
+(* run (T:context-literal / T:context-rejected: both graphs of the context the hook             *)
+(* verif_compile_to_mpc returns, for programs x input status vectors x all ordered output      *)
+(* lists).  Semantics (Model/MpcCompileCtxSem.v): the ring reading, with Random keys opaque,   *)
+(* the PRF nodes of the main graph as atoms [matom], and the Call node read as the evaluation  *)
+(* of the computation graph on the argument values.                                            *)
+(* ====================================================================================== *)
+From CC Require Import Model.MpcCompileCtx Model.MpcCompileCtxSem Proofs.MpcCompileCtxBase Proofs.MpcCompileCtxStatic Proofs.MpcCompileCtxProofs.
+
+(* Input sharing: share_node on an array/scalar node holding x (owner Party i or Public), with any
+   three PRF keys, ends in a tuple of three shares adding up to x, for all PRF values. *)
+Theorem C01_deep_share_node_sums :
+  forall (R : Type) (r0 r1 : R) (radd rmul rsub : R -> R -> R) (ropp : R -> R),
+  ring_theory r0 r1 radd rmul rsub ropp eq ->
+  forall (atom matom : Z -> R) (catom : value -> R) (one : R) (lin : op -> R -> R) (bil : op -> R -> R -> R) (nlin : op -> list R -> R)
+         (cg : list node) (coo : Z) nid k st out out' id ins0 env ins x kv0 kv1 kv2 t,
+  share_node nid k st out = Ok (out', id) ->
+  ceval_from R r0 radd rmul rsub atom matom catom one lin bil nlin cg coo out (Some ([], ins0)) = Some (env, ins) ->
+  out_ty out nid = Ok t -> is_leaf t = true ->
+  znth env nid = Ok (RLeaf R x) -> znth env k = Ok (RTup R [kv0; kv1; kv2]) ->
+  exists env' a b c,
+    ceval_from R r0 radd rmul rsub atom matom catom one lin bil nlin cg coo out' (Some ([], ins0)) = Some (env', ins) /\
+    znth env' id = Ok (T3 R a b c) /\ radd (radd a b) c = x.
+Proof.
+  intros R r0 r1 radd rmul rsub ropp Rth atom matom catom one lin bil nlin cg coo nid k st out out' id ins0 env ins x kv0 kv1 kv2 t H E HT Lt Hx Hk.
+  destruct (share_node_sem R r0 r1 radd rmul rsub ropp Rth atom matom catom one lin bil nlin cg coo _ _ _ _ _ _ _ _ _ _ _ _ _ _ H E HT Lt Hx Hk)
+    as (env' & a & b & c & Ev & _ & F & Hs & _). eauto 8.
+Qed.
+
+(* Reveal: on a share triple (a, b, c) held by the node [call] (of a share type), reveal_output for
+   the non-empty party list p0 :: rest ends in a node holding a + b + c; from the first emitted node
+   on there is no Call node and every node annotated Send(p0, q) holds a + b + c; and every other
+   listed party q receives such a node (the forwarding wraps around: q = (p0 + i) mod 3). *)
+Theorem C01_deep_reveal_adds_shares :
+  forall (R : Type) (r0 r1 : R) (radd rmul rsub : R -> R -> R) (ropp : R -> R),
+  ring_theory r0 r1 radd rmul rsub ropp eq ->
+  forall (atom matom : Z -> R) (catom : value -> R) (one : R) (lin : op -> R -> R) (bil : op -> R -> R -> R) (nlin : op -> list R -> R)
+         (cg : list node) (coo : Z) ins0 p0 call rest out out' id env ins a b c T,
+  reveal_output call (map IOParty (p0 :: rest)) out = Ok (out', id) ->
+  ceval_from R r0 radd rmul rsub atom matom catom one lin bil nlin cg coo out (Some ([], ins0)) = Some (env, ins) ->
+  znth env call = Ok (T3 R a b c) -> out_ty out call = Ok T ->
+  (exists t1 t2 t3, T = TTuple [t1; t2; t3] /\ is_leaf t1 = true) -> 0 <= p0 < 3 ->
+  exists env',
+    ceval_from R r0 radd rmul rsub atom matom catom one lin bil nlin cg coo out' (Some ([], ins0)) = Some (env', ins) /\
+    znth env' id = Ok (RLeaf R (radd (radd a b) c)) /\
+    (forall k nd, znth out' k = Ok nd -> zlen out <= k ->
+       n_op nd <> OCall /\ forall q, In (ASend p0 q) (n_annots nd) -> znth env' k = Ok (RLeaf R (radd (radd a b) c))) /\
+    (forall q, In q rest -> q <> p0 -> 0 <= q < 3 ->
+       exists k nd, znth out' k = Ok nd /\ zlen out <= k /\ In (ASend p0 q) (n_annots nd)).
+Proof.
+  intros R r0 r1 radd rmul rsub ropp Rth atom matom catom one lin bil nlin cg coo ins0 p0 call rest out out' id env ins a b c T H E Hc HT HS Hp.
+  destruct (reveal_sem R r0 radd rmul rsub atom matom catom one lin bil nlin cg coo ins0 (zlen out) p0 (radd (radd a b) c)
+              _ _ _ _ _ _ _ _ _ _ _ H E Hc HT HS eq_refl eq_refl Hp) as (env' & Ev & _ & _ & F & SI & Ex).
+  exists env'. auto.
+Qed.
+
+(* is_output_private of compile_to_mpc_context (the Private annotation of the computation graph's
+   output node) is the privacy analysis of the source output, for EVERY program of the mirrored
+   fragment: the emitting helpers only append nodes without that annotation, and compile_node adds
+   it exactly on the compiled node of a private source node. *)
+Theorem C01_deep_output_annotation :
+  forall nodes output flags cg coo priv use_mul,
+  compile_graph nodes output flags = Ok (cg, coo) ->
+  propagate_private_annotations nodes flags = Ok (priv, use_mul) ->
+  output_annotated_private cg coo = mem output priv.
+Proof. exact MpcCompileCtxStatic.output_annotation_is_privacy. Qed.
+
+(* The context-level theorem.  For every program of the theorem fragment [thm_frag] whose output
+   node holds an array/scalar value v, every input status vector (an input is owned by Party i,
+   Public, or arrives Shared: then the main graph receives ANY triple of values and its meaning is
+   their sum, [ctx_inrel]), every ordered list [outs] of output parties (ids are u64: non-negative),
+   every commutative ring, all inputs, all PRF values of the computation graph ([atom]) and of the
+   main graph ([matom]), Random keys opaque: if compile_to_mpc emits the computation graph (cg, coo)
+   and the main graph (mg, moo) and the source graph evaluates, then the main graph evaluates and
+   (ii) for the empty list its output is a share triple adding up to v (a private result is returned
+        as it is, a public one is shared by party 0 with share_node);
+   (i)  for the list p0 :: rest its output node holds v, and there is a Call node c annotated MpcCall,
+        the last Call of the main graph, such that every later node annotated Send(p0, q) -- every
+        message the revealing party p0 sends after the call -- holds v, and, when the result is private,
+        every other listed party q receives such a message.  (For a public result the Call node itself
+        is the output: every party evaluates it.)
+   [output_annotated_private cg coo] is is_output_private of compile_to_mpc_context: the output node of
+   the computation graph carries the Private annotation; C01_deep_output_annotation proves that this
+   is the privacy analysis of the source output.
+   Partial: [thm_frag] programs only (as C01_deep_compile_correct_partial). *)
+Theorem C01_deep_context_correct_partial :
+  forall (R : Type) (r0 r1 : R) (radd rmul rsub : R -> R -> R) (ropp : R -> R),
+  ring_theory r0 r1 radd rmul rsub ropp eq ->
+  forall (atom matom : Z -> R) (catom : value -> R) (one : R) (lin : op -> R -> R) (bil : op -> R -> R -> R) (nlin : op -> list R -> R),
+  (forall o a b, lin o (radd a b) = radd (lin o a) (lin o b)) ->
+  (forall o a a' b, bil o (radd a a') b = radd (bil o a b) (bil o a' b)) ->
+  (forall o a b b', bil o a (radd b b') = radd (bil o a b) (bil o a b')) ->
+  (forall o l l', length l = length l' -> nlin o (vadd R radd l l') = radd (nlin o l) (nlin o l')) ->
+  forall nodes output sts outs cg coo mg moo,
+  compile_to_mpc nodes output sts (map IOParty outs) = Ok ((cg, coo), (mg, moo)) ->
+  thm_frag nodes = true ->
+  Forall (fun p => 0 <= p) outs ->
+  forall ins_s ins_m env_s v,
+  deval R r0 radd rmul rsub atom catom one lin bil nlin nodes ins_s = Some env_s ->
+  znth env_s output = Ok (RLeaf R v) ->
+  ctx_inrel R radd sts ins_s ins_m ->
+  exists env_m,
+    ceval R r0 radd rmul rsub atom matom catom one lin bil nlin cg coo mg ins_m = Some env_m /\
+    match outs with
+    | [] => exists vc, znth env_m moo = Ok vc /\ reveal3 R radd vc = Some v
+    | p0 :: rest =>
+        znth env_m moo = Ok (RLeaf R v) /\
+        exists c cn, znth mg c = Ok cn /\ n_op cn = OCall /\ In AMpcCall (n_annots cn) /\
+          (forall k nd, znth mg k = Ok nd -> c < k ->
+             n_op nd <> OCall /\ forall q, In (ASend p0 q) (n_annots nd) -> znth env_m k = Ok (RLeaf R v)) /\
+          (output_annotated_private cg coo = true ->
+           forall q, In q rest -> q <> p0 ->
+             exists k nd, znth mg k = Ok nd /\ c < k /\ In (ASend p0 q) (n_annots nd))
+    end.
+Proof. exact compile_context_correct. Qed.
+
+(* the full statement (not proved): all compilable operations and value types, Graph/Eval.v instead of
+   the ring reading, the per-party views of a run instead of the single global evaluation *)
+Definition C01_deep_context_full : Prop :=
+  forall nodes output sts outs cg coo mg moo,
+    compile_to_mpc nodes output sts outs = Ok ((cg, coo), (mg, moo)) ->
+    forall (eval_source eval_main : list value -> option value) (reconstruct : value -> value) (share_inputs : list value -> list value) inputs,
+      option_map reconstruct (eval_main (share_inputs inputs)) = eval_source inputs.
+
+(* ---- non-vacuity: a*b + a, a owned by party 0, b by party 1, revealed to parties [1; 0] ---- *)
+Definition cx_src : list node :=
+  [ mkNode (OInput ex_t) [] [] [] ex_t; mkNode (OInput ex_t) [] [] [] ex_t;
+    mkNode OMultiply [0; 1] [] [] ex_t; mkNode OAdd [2; 0] [] [] ex_t ].
+Definition cx_sts : list iostatus := [IOParty 0; IOParty 1].
+Definition cx_outs : list Z := [1; 0].
+
+(* the model compiles it: a computation graph of 24 nodes (key input, two shared inputs, MultiplyMPC,
+   AddMPC, resharing of the output) and a main graph of 46 nodes (7 key nodes, 2 x (input + 14 sharing
+   nodes), the Call, 3 TupleGet, the missing share sent by party 0 to party 1, 2 Add, the value
+   forwarded by party 1 to party 0 = (1 + 2) mod 3, the final NOP) *)
+Example C01_deep_context_example_compiles :
+  match compile_to_mpc cx_src 3 cx_sts (map IOParty cx_outs) with
+  | Ok ((cg, coo), (mg, moo)) =>
+      thm_frag cx_src = true /\ zlen cg = 24 /\ zlen mg = 46 /\ moo = 45 /\ call_index mg = 37 /\
+      output_annotated_private cg coo = true /\
+      map n_annots (skipn 38 mg) = [[]; []; []; [ASend 0 1]; []; []; [ASend 1 0]; []]
+  | _ => False
+  end.
+Proof. vm_compute. repeat split; reflexivity. Qed.
+
+(* both graphs evaluate over the ring of integers: a = 3, b = 5, PRF values 7*i in the computation
+   graph and 11*i + 2 in the main graph; the output node of the main graph, the value party 1 computes
+   (node 43) and the message party 1 forwards to party 0 (node 44) hold a*b + a = 18 *)
+Definition cx_matom (i : Z) : Z := 11 * i + 2.
+Example C01_deep_context_example_evaluates :
+  match compile_to_mpc cx_src 3 cx_sts (map IOParty cx_outs) with
+  | Ok ((cg, coo), (mg, moo)) =>
+      match ceval Z 0 Z.add Z.mul Z.sub ex_atom cx_matom (fun _ => 0) 1 ex_lin (fun _ _ _ => 0) (fun _ _ => 0) cg coo mg
+                  [RLeaf Z 3; RLeaf Z 5] with
+      | Some env => Some (znth env moo, znth env 43, znth env 44)
+      | None => None
+      end
+  | _ => None
+  end = Some (Ok (RLeaf Z 18), Ok (RLeaf Z 18), Ok (RLeaf Z 18)).
+Proof. vm_compute. reflexivity. Qed.
+
+(* the hypotheses of the context theorem are satisfiable by this instance, and its conclusion gives
+   the value 18 at the output, at every later message of party 1, and a message for party 0 *)
+Example C01_deep_context_example_applies :
+  exists cg coo mg moo env_m c,
+    compile_to_mpc cx_src 3 cx_sts (map IOParty cx_outs) = Ok ((cg, coo), (mg, moo)) /\
+    ceval Z 0 Z.add Z.mul Z.sub ex_atom cx_matom (fun _ => 0) 1 ex_lin (fun _ _ _ => 0) (fun _ _ => 0) cg coo mg
+          [RLeaf Z 3; RLeaf Z 5] = Some env_m /\
+    znth env_m moo = Ok (RLeaf Z 18) /\
+    (forall k nd q, znth mg k = Ok nd -> c < k -> In (ASend 1 q) (n_annots nd) -> znth env_m k = Ok (RLeaf Z 18)) /\
+    (exists k nd, znth mg k = Ok nd /\ c < k /\ In (ASend 1 0) (n_annots nd)).
+Proof.
+  destruct (compile_to_mpc cx_src 3 cx_sts (map IOParty cx_outs)) as [[[cg coo] [mg moo]]| | |] eqn:Hc; try (vm_compute in Hc; discriminate).
+  assert (Hann : output_annotated_private cg coo = true).
+  { vm_compute in Hc. inversion Hc; subst. vm_compute. reflexivity. }
+  destruct (C01_deep_context_correct_partial Z 0 1 Z.add Z.mul Z.sub Z.opp InitialRing.Zth ex_atom cx_matom (fun _ => 0) 1 ex_lin (fun _ _ _ => 0) (fun _ _ => 0)
+              (fun _ _ _ => eq_refl) (fun _ _ _ _ => eq_refl) (fun _ _ _ _ => eq_refl) (fun _ _ _ _ => eq_refl)
+              cx_src 3 cx_sts cx_outs cg coo mg moo Hc)
+    with (ins_s := [RLeaf Z 3; RLeaf Z 5]) (ins_m := [RLeaf Z 3; RLeaf Z 5])
+         (env_s := [RLeaf Z 3; RLeaf Z 5; RLeaf Z 15; RLeaf Z 18]) (v := 18)
+    as (env_m & Hev & Hout & c & cn & _ & _ & _ & Hsend & Hrecv).
+  - reflexivity.
+  - repeat constructor; lia.
+  - vm_compute. reflexivity.
+  - reflexivity.
+  - repeat constructor.
+  - exists cg, coo, mg, moo, env_m, c. split; [reflexivity|]. split; [exact Hev|]. split; [exact Hout|]. split.
+    + intros k nd q Hk Hlt Hq. exact (proj2 (Hsend k nd Hk Hlt) q Hq).
+    + apply (Hrecv Hann 0); [now left | lia].
+Qed.
+
+Print Assumptions C01_deep_share_node_sums.
+Print Assumptions C01_deep_reveal_adds_shares.
+Print Assumptions C01_deep_output_annotation.
+Print Assumptions C01_deep_context_correct_partial.
